@@ -195,15 +195,16 @@ func parseMAC(s string) net.HardwareAddr {
 
 func newWorld(p *Plan, res *verifsim.Result, start time.Time) *world {
 	w := &world{
-		log:    verifsim.NewLog(start),
-		res:    res,
-		plan:   p,
-		byIdx:  map[int]*wiface{},
-		loop:   append([]RouteW(nil), p.Loop...),
-		ord:    map[string]int{},
-		holds:  map[string]chan struct{}{},
-		endC:   make(chan struct{}),
-		ghosts: map[int][]AddrW{},
+		log:     verifsim.NewLog(start),
+		res:     res,
+		plan:    p,
+		byIdx:   map[int]*wiface{},
+		loop:    append([]RouteW(nil), p.Loop...),
+		ord:     map[string]int{},
+		holds:   map[string]chan struct{}{},
+		dialing: map[int]*wiface{},
+		endC:    make(chan struct{}),
+		ghosts:  map[int][]AddrW{},
 	}
 	for i := range p.Faults {
 		f := &faultState{Fault: p.Faults[i], left: p.Faults[i].Count}
@@ -279,7 +280,11 @@ func (n *wnode) start(ns NodeSpec, info *runInfo) *daemon {
 			if ifc == nil {
 				panic("sim: config names interface the world lacks: " + t.cfg.Name)
 			}
-			t.dialer.DialFunc = ifc.dialFunc(system.Advertise)
+			if system.SimRealDial {
+				t.dialer.DialFunc = ifc.realDial(t.dialer.DialFunc)
+			} else {
+				t.dialer.DialFunc = ifc.dialFunc(system.Advertise)
+			}
 			name := t.cfg.Name
 			t.OnInconsistentRA = func(ours, theirs *ndp.RouterAdvertisement) {
 				w.log.Add(verifsim.Event{K: "inconsistent", Node: n.id, If: name})
@@ -290,7 +295,11 @@ func (n *wnode) start(ns NodeSpec, info *runInfo) *daemon {
 			if ifc == nil {
 				panic("sim: config names interface the world lacks: " + t.iface)
 			}
-			t.dialer.DialFunc = ifc.dialFunc(system.Monitor)
+			if system.SimRealDial {
+				t.dialer.DialFunc = ifc.realDial(t.dialer.DialFunc)
+			} else {
+				t.dialer.DialFunc = ifc.dialFunc(system.Monitor)
+			}
 			name := t.iface
 			t.OnMessage = func(m ndp.Message) {
 				w.log.Add(verifsim.Event{K: "onmessage", Node: n.id, If: name, S: m.Type().String()})
@@ -727,7 +736,8 @@ func execPlan(t *testing.T, p *Plan, res *verifsim.Result, oracle func(*runInfo)
 		context.VerifSetMapSeed(p.Cancel ^ uint64(p.Offset))
 		system.VerifRtnl = w.rtnl
 		system.VerifLoopbacks = w.loopbacks
-		defer func() { system.VerifRtnl, system.VerifLoopbacks = nil, nil }()
+		system.SimKernel = worldKernel{w}
+		defer func() { system.VerifRtnl, system.VerifLoopbacks, system.SimKernel = nil, nil, nil }()
 
 		if p.Scenario != "" {
 			sc, ok := scenarios[p.Scenario]
